@@ -466,6 +466,53 @@ def lookat_case(name, k, hand, m4, v3, w):
 
 # ---- decompose(compose(scale, orientation, translation, skew, perspective)) -------------------------------------------------------------------
 
+
+def decompose_conditioning_case(T):
+    """decompose(): the quaternion is extracted from the orthonormalised rows by Shepperd's method - the branch that computes root = sqrt(trace + 1) and divides the off-diagonal
+    differences by it may only be taken while the divisor is bounded away from zero, otherwise the cancellation residue of trace + 1 near a half turn is amplified without
+    bound and recompose() cannot rebuild the matrix.  Decided structurally on the derived orientation term: every comparison that guards sqrt(X + 1) by a lower bound c on the
+    same X must have c >= -3/4 (divisor root >= 1/2: the rounding error of the numerators is at most doubled); the reference code uses c = 0."""
+    sc = G.scalar(T)
+    qt, m4 = G.quat(T), G.mat(4, 4, T)
+    k = K('decomp_cond_%s' % sc.tag, [Par('o', qt, False), Par('m', m4)],
+          '{ glm::vec<3, %s, glm::defaultp> s, t, sk; glm::vec<4, %s, glm::defaultp> p; glm::qua<%s, glm::defaultp> q; glm::decompose(*m, s, q, t, sk, p); *o = q; }' % (sc.cpp, sc.cpp, sc.cpp), CFG)
+    name = 'decompose<%s>.branch_conditioning' % sc.tag
+
+    def judge(ctx):
+        err = ctx.compile_error(k)
+        if err:
+            return [R.ob(name, 'existence', R.REFUTED, 'cannot be instantiated: ' + err, kernel=k.source())]
+        lanes = L.out_lanes(ctx, k, qt)
+        found = []
+        for c_ in 'wxyz':
+            nodes = tm.walk(lanes[c_])
+            roots = set()
+            for x in nodes:
+                if x.op == 'sqrt' and x.args[0].op == 'fadd' and len(x.args[0].args) == 2:
+                    a, b = x.args[0].args
+                    for u, v in ((a, b), (b, a)):
+                        if v.op == 'const' and tm.fval(v) == 1.0:
+                            roots.add(u)
+            for x in nodes:
+                if x.op != 'fcmp':
+                    continue
+                pr, p_, q_ = x.args
+                for X in roots:
+                    # lower bounds on X: c < X, c <= X (and their negations X <= c, X < c, which guard the other arm of the same selection)
+                    if p_.op == 'const' and q_ is X and pr in ('olt', 'ole', 'uge', 'ugt'):
+                        found.append(tm.fval(p_))
+                    if q_.op == 'const' and p_ is X and pr in ('ogt', 'oge', 'ule', 'ult'):
+                        found.append(tm.fval(q_))
+        if not found:
+            return [R.ob(name, 'decompose_conditioning', R.UNDECIDED, 'no comparison of the trace with a constant guards sqrt(trace + 1)', kernel=k.source())]
+        lo = min(found)
+        ok = lo >= -0.75
+        return [R.ob(name, 'decompose_conditioning', R.PROVED if ok else R.REFUTED,
+                     'sqrt(trace + 1) is only divided by while trace > %g: the divisor is at least %.3g' % (lo, (lo + 1) ** 0.5) if ok else
+                     'the branch that divides by root = sqrt(trace + 1) is taken for every trace > %g: for rotations near a half turn trace + 1 is a cancellation residue and the orientation is rounding noise '
+                     '(Shepperd\'s method takes this branch only for trace > 0, where root >= 1)' % lo, where=R.where_of(ctx.fn(k), lanes['w']) if not ok else None, kernel=k.source())]
+    return R.Case(name, [k], judge)
+
 def decompose_case(T, Q):
     """decompose() applied to P * T * R(q) * Kx * Ky * Kz * S (the composition recompose() is proved equal to), with symbolic components,
     |q| = 1 and positive scales: in every branch of its guards and of the quaternion extraction the returned components are the ones the
@@ -955,6 +1002,7 @@ def cases(tier):
         cs.append(interpolate_case(T, Q))
         cs.append(axis_angle_general_case(T, Q))
     cs += canaries()
+    cs += [decompose_conditioning_case('float'), decompose_conditioning_case('double')]
     from rules import narrow
     cs += narrow.cases(cs, 'C09')
     return cs
